@@ -346,6 +346,32 @@ pub fn run(a: &Args, rep: &mut Report) {
     for v in [i128::MAX, i128::MIN, i128::MAX - 1, i128::MIN + 1] {
         int_conversions(c.rep, v);
     }
+    // the published range constants denote the range ends, and agree with decoded heads
+    if a.shard == 0 {
+        use minicbor::data::{MAX_INT, MIN_INT};
+        let lo = -(1i128 << 64);
+        let hi = (1i128 << 64) - 1;
+        let dec = |b: &[u8]| minicbor::Decoder::new(b).int().ok();
+        let facts: [(&str, bool); 9] = [
+            ("i128::from(MIN_INT) == -2^64", i128::from(MIN_INT) == lo),
+            ("i128::from(MAX_INT) == 2^64-1", i128::from(MAX_INT) == hi),
+            ("decode(3b ff*8) == MIN_INT", dec(&[0x3b, 0xff, 0xff, 0xff, 0xff, 0xff, 0xff, 0xff, 0xff]) == Some(MIN_INT)),
+            ("decode(1b ff*8) == MAX_INT", dec(&[0x1b, 0xff, 0xff, 0xff, 0xff, 0xff, 0xff, 0xff, 0xff]) == Some(MAX_INT)),
+            ("Int::try_from(-2^64) == MIN_INT", Int::try_from(lo).ok() == Some(MIN_INT)),
+            ("Int::try_from(2^64-1) == MAX_INT", Int::try_from(hi).ok() == Some(MAX_INT)),
+            ("i64::try_from(MIN_INT) fails", i64::try_from(MIN_INT).is_err()),
+            ("u64::try_from(MAX_INT) == u64::MAX", u64::try_from(MAX_INT).ok() == Some(u64::MAX)),
+            ("encode(MIN_INT) == 3b ff*8", minicbor::to_vec(MIN_INT).ok().as_deref() == Some(&[0x3b, 0xff, 0xff, 0xff, 0xff, 0xff, 0xff, 0xff, 0xff][..])),
+        ];
+        for (what, ok) in facts {
+            c.rep.eval();
+            if ok {
+                c.rep.count("int-conversions/range constants");
+            } else {
+                c.rep.violation(&format!("{}|Int range constants", ID), J::obj().with("what", J::s(format!("{} does not hold", what))), vec![]);
+            }
+        }
+    }
     c.rep.enumerated(n);
     c.rep.count_n("int-conversions/i128 boundaries", n);
     // 5. thorough: full 2^32 argument sweeps at the 4-byte and 8-byte widths, both signs
